@@ -23,6 +23,7 @@ class Tok:
         "att",  # label: Span it is attached to (or None = other)
         "at_end",  # label: attached at the end of att
         "entry",  # insn: not used; see Span.entry
+        "slid",  # label: moved onto another block during this session
     )
 
     def __init__(self, kind, id, **kw):
@@ -39,6 +40,7 @@ class Tok:
         self.att = None
         self.at_end = False
         self.entry = False
+        self.slid = False
         for k, v in kw.items():
             setattr(self, k, v)
 
@@ -109,6 +111,7 @@ class Model:
         self.funcs = {}  # func id -> {"name": sym name}
         self.entries = {}  # func id -> set of tok ids (first byte tok of entry blocks)
         self.dropped_funcs = set()
+        self.proxy_ambiguous = set()
         self.counter = 0
         self.new_units = []
 
@@ -153,6 +156,7 @@ class Model:
         self.spans = {}
         self.span_list = {}
         self.new_units = []
+        self.proxy_ambiguous = set()
         for sect, units in real_spans.items():
             lst = []
             for uid, blocks in units:
@@ -190,6 +194,7 @@ class Model:
             for t in u.toks:
                 if t.kind == "label":
                     a = label_att.get(t.name)
+                    t.slid = False
                     if a is None:
                         t.att, t.at_end = None, False
                     else:
@@ -248,6 +253,15 @@ class Model:
         covered = sum(len(t.b) for t in unit.toks if t.id in ids)
         if covered != length:
             raise ModelMismatch("deleted range is not a whole number of tokens", (span_key, offset, length, covered))
+        if proxy and ids:
+            # labels directly in front of the block's first byte are, in the
+            # listing, indistinguishable from the block's own labels
+            first = min(i for i, t in enumerate(unit.toks) if t.id in ids)
+            j = first - 1
+            while j >= 0 and not unit.toks[j].is_bytes():
+                if unit.toks[j].kind == "label":
+                    self.proxy_ambiguous.add(unit.toks[j].name)
+                j -= 1
         unit.toks = [t for t in unit.toks if t.id not in ids]
         sp.remaining -= ids
         if sp.size > 0 and not sp.remaining and not sp.inserted and not replacing and sp.alive:
@@ -263,13 +277,19 @@ class Model:
             keep = []
             for t in u.toks:
                 if t.kind == "label" and t.att is sp:
-                    if proxy:
+                    if proxy and t.slid:
+                        # a label that slid here from a block deleted earlier
+                        # in this session: whether it counts as a label of
+                        # this block depends on whether that block could be
+                        # removed (doc/Deletion.md); the implementation decides
+                        self.proxy_ambiguous.add(t.name)
+                    elif proxy:
                         self.proxy_syms.add(t.name)
                         continue
-                    if has_next:
-                        t.att, t.at_end = nxt, False
+                    elif has_next:
+                        t.att, t.at_end, t.slid = nxt, False, True
                     elif prv is not None or self._any_bytes_before(sp):
-                        t.att, t.at_end = prv, True
+                        t.att, t.at_end, t.slid = prv, True, True
                     # else: the block is kept zero-sized; the label stays
                 keep.append(t)
             u.toks = keep
